@@ -21,7 +21,8 @@ func init() {
 			"Not decided: cookiejar matching rules, LRU eviction order, expiry arithmetic. " +
 			"The shim's open endpoint restores r.URL from the body before it delegates to the handler wrapped by the session wrapper, so path-scoped cookies are looked up for the websocket's real URL. " +
 			"The session jar is updated before the header is released to the wrapped writer; the shim dials with DefaultDialer or a jar-less dialer. " +
-			"(B) no route of the agent's handler chain bypasses the session handler; (N) the session cache is constructed from the configured cookie name, lifetime, size and test override.",
+			"(B) no route of the agent's handler chain bypasses the session handler; (N) the session cache is constructed from the configured cookie name, lifetime, size and test override." +
+			" (L, second part) the lookup that misses and the insertion that follows run under one hold of the cache mutex; (B, second part) the wrapper the shim applies to open requests is sessionLRU.SessionHandler evaluated in hostProxy.",
 		Assumptions: []string{"net/http/cookiejar implements RFC 6265 matching", "groupcache lru evicts least-recently-used entries"},
 		Run:         runC10,
 	})
